@@ -150,17 +150,50 @@ def counter(name, alias, hit, extra_req=()):
 counter("etl::count<int *, int>", "etl_count", lambda e: "(%s == *value)" % e, ["FRESH(value, sizeof(int))"])
 counter("etl::count_if<int *, vf::pred3>", "etl_count_if", P3)
 
-# for_each with the mutating functor mut1: every element becomes OP1(old element), each exactly once
-fn("etl::for_each<int *, vf::mut1>", "etl_for_each", [R(rng()),
-   E("%s ==> OLD(first)[vf_k] == %s" % (K, OP1(oldel("first")))),
-   A(upto("first"))],
-   [[A("first, " + upto("first")), INV(linv()),
-     INV("%s ==> %s[vf_k] == %s" % (KB, EF, OP1(entel("first")))),
-     INV("%s ==> %s[vf_k] == %s" % (KA, EF, entel("first"))),
-     DECR]])
 
+# ---------------------------------------------------------------------------------------------------------------------
+# writing algorithms: instantiated with the index iterator vf::idx<T> {T* base; long i;} (see driver.cpp for the reason)
+def xrng(f="first", l="last", n="vf_n", off="0"):
+    """requires: [f,l) = elements off .. off+n of a fresh array of off+n ints"""
+    return "vf_k <= %s && %s <= %s && %s <= %s && FRESH(%s.base, (%s + %s) * %s) && %s.i == (long)(%s) && %s.base == %s.base && %s.i == (long)(%s + %s)" % (
+        n, n, NMAX, off, NMAX, f, off, n, I, f, off, l, f, l, off, n)
+
+
+def xbuf(d, n="vf_n"):
+    return "FRESH(%s.base, %s * %s) && %s.i == 0" % (d, n, I, d)
+
+
+def xat(r, base, i): return "%s.base == %s && %s.i == (long)(%s)" % (r, base, r, i)
+def xupto(b, n="vf_n"): return "__CPROVER_object_upto(%s, (%s) * %s)" % (b, n, I)
+
+
+XDEC = DEC("last.i - first.i")
+XK_B = "(vf_k < vf_n && (long)vf_k < first.i)"
+XK_A = "(vf_k < vf_n && (long)vf_k >= first.i)"
+
+fn("etl::for_each<vf::idx<int>, vf::mut1>", "etl_for_each", [R(xrng()),
+   E("%s ==> OLD(first.base)[vf_k] == %s" % (K, OP1("OLD(first.base[vf_k])"))),
+   A(xupto("first.base"))],
+   [[A("first.i, " + xupto("first.base")), INV("0 <= first.i && first.i <= last.i"),
+     INV("%s ==> first.base[vf_k] == %s" % (XK_B, OP1("ENTRY(first.base[vf_k])"))),
+     INV("%s ==> first.base[vf_k] == ENTRY(first.base[vf_k])" % XK_A),
+     XDEC]])
+
+# copy: source = elements vf_m .. vf_m+vf_n of buffer A; destination = a separate buffer, or the start of A (vf_m >= 1: the
+# destination lies before `first`, the overlap direction [alg.copy] permits)
+SRC = "(first.i - (long)vf_m)"     # loop: number of elements copied so far
+fn("etl::copy<vf::idx<int>, vf::idx<int>>", "etl_copy", [R(xrng(off="vf_m")),
+   R("vf_ov ? (__CPROVER_pointer_equals(destination.base, first.base) && destination.i == 0 && vf_m >= 1) : (%s)" % xbuf("destination")),
+   E(xat("RET", "OLD(destination.base)", "vf_n")),
+   E("%s ==> OLD(destination.base)[vf_k] == OLD(first.base[vf_m + vf_k])" % K),
+   A(xupto("destination.base"))],
+   [[A("first.i, destination.i, " + xupto("destination.base")),
+     INV("(long)vf_m <= first.i && first.i <= last.i && destination.i == %s" % SRC),
+     INV("(%s && (long)vf_k < %s) ==> destination.base[vf_k] == ENTRY(first.base[vf_m + vf_k])" % (K, SRC)),
+     INV("(%s && (long)vf_k >= %s) ==> first.base[vf_m + vf_k] == ENTRY(first.base[vf_m + vf_k])" % (K, SRC)),
+     XDEC]])
 # ===== END CONTRACTS =====
 
 hdr = ["# generated by fam/algo/mkspec.py -- edit that file and re-run it",
-       "GHOST unsigned long vf_n, vf_m, vf_k, vf_j, vf_p, vf_q;"]
+       "GHOST unsigned long vf_n, vf_m, vf_k, vf_j, vf_p, vf_q, vf_ov;"]
 open(os.path.join(os.path.dirname(os.path.abspath(__file__)), "contracts.spec"), "w").write("\n".join(hdr + OUT) + "\n")
